@@ -58,8 +58,15 @@ func main() {
 	if id == "stress12" {
 		stress12Main(os.Args[2:])
 	}
+	if id == "latebind" {
+		latebindMain(os.Args[2:])
+	}
 	if id == "c03child" {
-		c03ChildMain(os.Args[2])
+		mode := ""
+		if len(os.Args) > 3 {
+			mode = os.Args[3]
+		}
+		c03ChildMain(os.Args[2], mode)
 		return
 	}
 	fs := flag.NewFlagSet("h", flag.ExitOnError)
